@@ -22,9 +22,8 @@ import Gotree.Lemmas.C07Single
 import Gotree.Lemmas.C07OracleG
 import Gotree.Lemmas.C07Deg
 import Gotree.Lemmas.C07Cmd
-import Gotree.Lemmas.C07Sites
 import Gotree.Lemmas.C07Hist
-import Gotree.Gen.C07Sites
+import Gotree.Lemmas.C07Renum
 
 namespace Gotree.C07
 open Gotree
@@ -920,137 +919,6 @@ theorem resolve_defined_example :
     resolve exS [0, 1, 0, 2, 4] = none ∧ resolve exS [0, 2, 0, 2, 4, 3] = none := by decide
 
 
-/-! ## The table regenerated from the Go source (`harness/c07/extract.go` → `Gotree/Gen/C07Sites.lean`)
-
-  `sites_*_check`: the facts of the source, re-read on every run, are the ones the model was written from
-  (`Sites.exp…` in Model/C07Sites.lean), up to the direction in which a comparison is written.
-  `sites_sel…`, `sites_guards`, `contractL_follows_guards`, `sites_resolve_threshold`, `sites_cmd_defaults`:
-  what those facts MEAN — the conditions of the table, evaluated, are the selectors and the branch decisions
-  of the model, for all inputs.  When a decision fails the driver still runs (it does not import the table)
-  and the oracle looks for a concrete failing input. -/
-
-open Sites Gen.C07Sites in
-theorem sites_selectors_check :
-    Gen.C07Sites.selLen.norm = expSelLen ∧ Gen.C07Sites.selSup.norm = expSelSup ∧
-    Gen.C07Sites.selDepth.norm = expSelDepth ∧
-    Gen.C07Sites.depthErr.norm = expDepthErr ∧ depthValue = expDepthValue ∧ removeArgs = expRemoveArgs := by
-  decide +kernel
-
-open Sites Gen.C07Sites in
-theorem sites_removeEdges_check : guards.map Guard.norm = expGuards := by decide +kernel
-
-open Sites Gen.C07Sites in
-theorem sites_resolve_check :
-    resolveConds.map Ex.norm = expResolveConds ∧ resolveSets = expResolveSets ∧
-    resolveReads = expResolveReads ∧ resolveTop = expResolveTop := by decide +kernel
-
-open Sites Gen.C07Sites in
-/-- the three sentinels are `-1`, the model's `NIL` -/
-theorem sites_consts_check :
-    (["NIL_SUPPORT", "NIL_LENGTH", "NIL_PVALUE"].all fun n => (consts.lookup n).bind litRat? == some NIL) = true := by
-  decide +kernel
-
-open Sites Gen.C07Sites in
-theorem sites_accessors_check : accessors = expAccessors ∧ tipDef.norm = expTipDef := by decide +kernel
-
-open Sites in
-/-- `Node.Tip()` as found in the source: a node is a tip iff it has exactly one neighbour — the reading
-    `βGuard` gives to `$e.Left().Tip()` (a root with one neighbour IS a tip) and `T.isLeaf` to `$e.Right().Tip()` -/
-theorem sites_tip (deg : Nat) : eval (ρDeg deg) βNone Gen.C07Sites.tipDef = some (deg == 1) := by
-  rw [← eval_norm, sites_accessors_check.2]; exact tip_expected deg
-
-open Sites Gen.C07Sites in
-theorem sites_cmds_check : cmds = expCmds := by decide +kernel
-
-open Sites in
-/-- `CollapseShortBranches`: the condition found in the source IS `selLen` -/
-theorem sites_selLen (l : Rat) (s : SplitE) :
-    eval (ρLen l s) βNone Gen.C07Sites.selLen = some (selLen l s) := by
-  rw [← eval_norm, sites_selectors_check.1]; exact selLen_expected l s
-
-open Sites in
-/-- `CollapseLowSupport`: the condition found in the source, with the value of `NIL_SUPPORT` found in the
-    source, IS `selSup` -/
-theorem sites_selSup (x : Rat) (s : SplitE) :
-    eval (ρSup Gen.C07Sites.consts x s) βNone Gen.C07Sites.selSup = some (selSup x s) := by
-  rw [← eval_norm, sites_selectors_check.2.1]
-  refine selSup_expected _ x s ?_
-  have h := sites_consts_check
-  simp only [List.all_cons, List.all_nil, Bool.and_true, Bool.and_eq_true, beq_iff_eq] at h
-  exact h.1
-
-open Sites in
-/-- `CollapseTopoDepth`: the condition found in the source, on the value of `TopoDepth`, IS `selDepth` -/
-theorem sites_selDepth (total : Nat) (mn mx : Int) (s : SplitE) :
-    eval (ρDepth (topoDepth total s) mn mx) βNone Gen.C07Sites.selDepth = some (selDepth total mn mx s) := by
-  rw [← eval_norm, sites_selectors_check.2.2.1]; exact selDepth_expected total mn mx s
-
-open Sites in
-/-- `Edge.TopoDepth`: the error condition found in the source, on the sizes stored on a branch, IS `staleErr` -/
-theorem sites_depthErr (stored : List (Int × Nat × Nat)) (s : SplitE) :
-    eval (ρSizes (storedSizes stored s.e.id)) βNone Gen.C07Sites.depthErr = some (staleErr stored s) := by
-  rw [← eval_norm, sites_selectors_check.2.2.2.1]; exact depthErr_expected _
-
-open Sites in
-/-- `RemoveEdges`: the two guards found in the source, run in their order, decide like the model -/
-theorem sites_guards (rr rt childTip : Bool) (deg : Nat) (atRoot : Bool) :
-    fateOfGuards Gen.C07Sites.guards rr rt childTip deg atRoot = fateOfModel rr rt childTip deg atRoot := by
-  rw [← fateOfGuards_norm, sites_removeEdges_check]; exact fate_expected rr rt childTip deg atRoot
-
-open Sites in
-/-- … and `contractL` does to the branch carrying `id` what the guards of the source say: kept (length 0
-    under `removeTips`) when an end point is a tip, kept when it is a root branch of a degree-2 root and
-    `removeRoot` is off, contracted otherwise (`none` = `delNeighbor`). -/
-theorem contractL_follows_guards (rr rt isRoot : Bool) (id : Int) (deg : Nat) (e : EdgeD) (c : T) (r : Kids)
-    (h : (e.id == id) = true) :
-    (contractL (rr || !isRoot) rt id deg ((e, c) :: r)).1.head? =
-      match fateOfGuards Gen.C07Sites.guards rr rt c.isLeaf deg isRoot with
-      | .tip z => some (some (if z then zeroLen e else e, contractT (rr || !isRoot) rt id false c))
-      | .rootBranch => some (some (e, contractT (rr || !isRoot) rt id false c))
-      | .contracted => some none
-      | .unknown => none := by
-  rw [sites_guards]
-  unfold fateOfModel
-  rw [contractL]
-  simp only [h, if_true]
-  generalize (c.isLeaf || deg == 1) = b1
-  generalize (!(rr || !isRoot) && deg == 2) = b2
-  cases b1 <;> cases b2 <;> rfl
-
-open Sites in
-/-- `resolveRecur`: the test found in the source (`len(current.Neigh()) > 3`, the same text for the `if`
-    and for the `for`) is the one of `resolveNode` — a node with at most three neighbours is left as it is
-    and draws nothing. -/
-theorem sites_resolve_threshold (isRoot : Bool) (d : NodeD) (p : Nat) (k : Kids) (ds : List Nat) :
-    Gen.C07Sites.resolveConds.getD 1 (.atom "") = Gen.C07Sites.resolveConds.getD 4 (.atom "") ∧
-    (eval (ρNeigh (k.length + (if isRoot then 0 else 1))) βNone (Gen.C07Sites.resolveConds.getD 1 (.atom "")) = some false →
-      resolveNode isRoot d p k ds = some (.node d p k, ds)) := by
-  have h1 : (Gen.C07Sites.resolveConds.getD 1 (.atom "")).norm = .cmp "<" "3" "len($0.Neigh())" := by
-    decide +kernel
-  refine ⟨by decide +kernel, fun h => ?_⟩
-  rw [← eval_norm, h1, resolveCond_expected] at h
-  have hle : k.length + (if isRoot then 0 else 1) ≤ 3 := by
-    have := Option.some.inj h
-    simp at this; omega
-  unfold resolveNode
-  simp only [hle, if_true]
-
-open Sites in
-/-- the commands: omitting every option is giving each the default the source registers for it -/
-theorem sites_cmd_defaults (recs : List Rec) :
-    Gen.C07Sites.cmds.map Cmd.defaults = [[some 0, some 0, some 0], [some 0, some 0], [some 0, some 0, some 0, some 0], []] ∧
-    cmdLength {} recs = cmdLength { l := some 0, root := false, tips := false } recs ∧
-    cmdSupport {} recs = cmdSupport { s := some 0, root := false } recs ∧
-    cmdDepth {} recs = cmdDepth { mn := some 0, mx := some 0, root := false, tips := false } recs := by
-  refine ⟨by rw [sites_cmds_check]; decide +kernel, rfl, rfl, rfl⟩
-
-/-- the hypotheses of the table theorems are met by concrete values: a root branch of a rooted tree without
-    `--root` is kept, the same branch under `--root` is contracted, a terminal branch is zeroed by `--tips` -/
-example : Sites.fateOfGuards Gen.C07Sites.guards false false false 2 true = .rootBranch ∧
-    Sites.fateOfGuards Gen.C07Sites.guards true false false 2 true = .contracted ∧
-    Sites.fateOfGuards Gen.C07Sites.guards false true true 3 false = .tip true := by decide +kernel
-
-
 /-! ## Histories: several collapses on ONE tree (the sequences `C07.seq` runs on one object)
 
   A collapse leaves what the next one needs — branch ids still pairwise distinct, the root condition — and
@@ -1117,5 +985,51 @@ theorem collapseSup_idempotent {β : Type} (f : List String → β) (hf : PermIn
     `-l 0 --root` removes branch 0, `-s 50 --root` then removes branch 3 (support 20) and keeps 4 (support 90) -/
 example : (collapseLen 0 true false exR).splits.map (·.e.id) = [3, 4, 5, 6, 7, 1, 2] ∧
     (collapseSup 50 true (collapseLen 0 true false exR)).splits.map (·.e.id) = [1, 2, 4, 5, 6, 7] := by decide
+
+/-- ★ a history through `Resolve`: resolve, renumber the branches (as the harness does between steps — the
+    branches `Resolve` makes have no id), collapse the branches of length ≤ 0 with `--root`: when every inner
+    branch of the input has a positive length, what is observed (splits, lengths, supports, p-values, node
+    data) is the input again — the collapse removes exactly what `Resolve` added. -/
+theorem resolve_then_collapse {β : Type} (f : List String → β) (hf : PermInv f) (t r : T) (draws : List Nat)
+    (h : resolve t draws = some r) (hk : t.kids.length ≠ 1)
+    (hpos : ∀ y ∈ RT f t, y.2.2.2.2.1 = false → 0 < y.2.1) :
+    (RT f (collapseLen 0 true false (renumber r))).Perm (RT f t) := by
+  have hid := uniqueIds_renumber r
+  have hroot : RootOK true (renumber r) := by
+    refine ⟨?_, Or.inl rfl⟩
+    rw [renumber_kids_length]
+    have := resolve_kids_one t r draws h
+    intro hc; apply hk
+    simpa [hc] using this.symm
+  have p1 := (collapseLen_exact f hf 0 true false (renumber r) hid hroot).map obsR
+  rw [keepV_obsR] at p1
+  obtain ⟨⟨ex, hnew, hp⟩, _⟩ := resolve_refines f hf t r draws h
+  have e1 : (obsT f (renumber r)).map obsR = RT f r := renumber_RT f r
+  rw [e1] at p1
+  have hp' : (RT f r).Perm (RT f t ++ ex) := hp
+  refine p1.trans ((hp'.filter _).trans (List.Perm.of_eq ?_))
+  rw [List.filter_append]
+  have h1 : (RT f t).filter (keptR 0) = RT f t := by
+    apply List.filter_eq_self.mpr
+    intro y hy
+    unfold keptR
+    cases ht : y.2.2.2.2.1
+    · have := hpos y hy ht
+      have : ¬ y.2.1 ≤ 0 := Rat.not_le.mpr this
+      simp [this]
+    · simp
+  have h2 : ex.filter (keptR 0) = [] := by
+    apply List.filter_eq_nil_iff.mpr
+    intro y hy
+    obtain ⟨hl, _, _, htip, _⟩ := hnew y hy
+    unfold keptR
+    rw [hl, htip]
+    decide
+  rw [h1, h2, List.append_nil]
+/-- the hypotheses are met by the star `exS` (no inner branch, six children) with the draws of
+    `resolve_defined_example`: after renumbering the ids are distinct, and the collapse leaves the six tips -/
+example : ((resolve exS [0, 1, 0, 2, 4, 3]).map fun r =>
+    (uniqueIds r, uniqueIds (renumber r), (collapseLen 0 true false (renumber r)).splits.length)) = some (false, true, 6) := by
+  decide
 
 end Gotree.C07
